@@ -86,6 +86,32 @@ def run(res, replay=None):
                 'non-trivial = request outside the domain; distinct = distinct requests')
     res.assumptions = ['alpha = 2 exactly is excluded from the valid controls (the rate formula divides inf by inf there; see DESIGN.md)']
     reqs = [replay['replay']['request']] if replay else gen_requests(rng, res.tier)
+    # counts that are not Python ints are not requests of the Gallina guard model (its counts are integers): they are checked against the
+    # documented bounds directly ('fewer than one or more than two loci', a negative number of unlinked lineages), below
+    real_reqs = [r for r in reqs if r[0] == 'RLocusConfigReal']
+    reqs = [r for r in reqs if r[0] != 'RLocusConfigReal']
+    if not replay:
+        real_reqs = [['RLocusConfigReal', n_, u_, r_] + how for how in ([], ['statistic'])
+                     for n_, u_, r_ in [(2.5, 0, 1.0), (2.0001, 0, 1.0), (0.5, 0, 0.0), (2, -0.5, 1.0), (2, -0.0001, 1.0), (1, -0.5, 0.0),
+                                        (['np', 3], 0, 1.0), (['np', 0], 0, 0.0), (2, ['np', -1], 1.0), (['np', 2], ['np', 1], 1.0), (2.0, 1.0, 1.0)]]
+    def real_verdict(r):
+        val = lambda x: x[1] if isinstance(x, list) else x
+        n_, u_ = val(r[1]), val(r[2])
+        return 'ValueErr' if n_ < 1 else 'NotImpl' if n_ > 2 else 'ValueErr' if u_ < 0 or r[3] < 0 else 'Ok'
+    if real_reqs:
+        ro = C.run_impl('invalid.py', {'requests': real_reqs, 'extreme': []})['outcomes']
+        for rq, iv in zip(real_reqs, ro):
+            mv = real_verdict(rq)
+            res.count(str(rq), nontrivial=(mv != 'Ok'))
+            if mv != 'Ok' and iv in ('Ok', 'nan+log', 'nan-silent'):
+                res.violation('a request outside the documented domain returned a value instead of raising',
+                              {'request': rq, 'expected': mv, 'observed': iv})
+            elif mv == 'Ok' and iv != 'Ok':
+                res.violation('a valid request was rejected (or returned NaN)', {'request': rq, 'observed': iv})
+            elif mv != iv and mv != 'Ok':
+                res.violation('wrong kind of failure for an invalid request', {'request': rq, 'expected': mv, 'observed': iv})
+    if replay and not reqs:
+        return
     extreme = [{'n': 3, 'sizes': {'pop_0': {0: 1e-40}, 'pop_1': {0: 1e40}}, 'm': 1.0},
                {'n': 4, 'sizes': {'pop_0': {0: 1e-300}, 'pop_1': {0: 1.0}}, 'm': 1e-300},
                {'n': 3, 'sizes': {'pop_0': {0: 1e200}, 'pop_1': {0: 1e-200}}, 'm': 1e150}]
